@@ -33,7 +33,7 @@ ASSUMPTIONS = [
     "key bits are clear wherever mask bits are clear",
     "sources contain links and/or None",
 ]
-FLOORS = {"feedback_table_with_produced_entry": 100,
+FLOORS = {"no_raise_call": 150, "feedback_table_with_produced_entry": 100,
           "equivalence_keys": 20000, "shorter_result": 100,
           "failure_report": 30, "default_routed_key": 50,
           "merged_entry_match": 200}
